@@ -519,14 +519,14 @@ def run(ctx):
                                  seed=ctx.seed, workers=4)
     rng = random.Random(ctx.seed)
     rng.shuffle(scripts)
-    scripts = scripts[:200 if not thorough else 2500]
+    scripts = scripts[:200 if not thorough else 4000]
     execs = regress_execs()
     nreg = len(execs)
     ctx.extra["regression_scripts"] = nreg
     execs += [from_tlc(s, rng) for s in scripts]
     ctx.extra["tlc_generated_scripts"] = len(execs) - nreg
     # 3. seeded random executions
-    n_tree, n_read, n_iter, n_env = (350, 200, 120, 130) if not thorough else (5000, 2500, 1500, 1500)
+    n_tree, n_read, n_iter, n_env = (350, 200, 120, 130) if not thorough else (10000, 5000, 3000, 3000)
     for _ in range(n_tree):
         execs.append(tree_exec(rng, rng.randint(15, 70), "tree"))
     for _ in range(n_read):
